@@ -210,6 +210,9 @@ pub fn make_module() -> KMap {
                     KIterator::new(StepToF64Iterator::new(start.into(), end.into(), 1.0))
                 }
             }
+            (Number(_), [Number(_), Number(step_by)]) if f64::from(step_by) == 0.0 => {
+                return runtime_error!("the step size must not be zero");
+            }
             (Number(start), [Number(end), Number(step_by)]) => {
                 if start.is_i64() && step_by.is_i64() {
                     KIterator::new(StepToI64Iterator::new(
